@@ -185,6 +185,7 @@ class Check:
                 "canned_mutants": self.mutant_results,
                 "known_findings_reported": [v["key"] for v, _ in known_hits],
                 "not_decided": self.not_decided,
+                "notes": self.notes,
                 "trusted_base": ["rustc MIR construction / drop elaboration (nightly)", "driver/ fact extractor",
                                  "rule tables in rules/%s.py" % self.prop, "semantics of the foreign APIs named in the rules"],
                 "exhaustive": False,
